@@ -35,6 +35,12 @@ def run(res, tier, br, model_ok=True, search=False):
         ("use.c", "typedef int\tt_size;\n\nstatic t_size\tg_total;\nextern char\t**environ;\n\nt_size\tcount_it(t_size first_, t_size _second)\n{\n"
                   "\tt_size\tresult_;\n\n\tresult_ = first_ * _second;\n\treturn (result_ + g_total);\n}\n"),
     ]
+    bases += [
+        # names that contain one another, and a macro whose name contains what the guard should be called
+        ("ft.h", "#ifndef FT_H\n\n# define FT_HEIGHT 3\n# define MY_FT_H_MAX 4\n# define FT_ 5\n\nint\tft_a(int ft, int ft_h, int ft_height);\n\n#endif\n"),
+        ("sub.c", "#define N 1\n#define N_MAX 2\n#define MAX_N 3\n#define _GNU_SRC 4\n#define __B_LEN 5\n\nint\tcount(int counter, int count_it, int recount)\n{\n"
+                  "\treturn (counter + count_it + recount + N + N_MAX + MAX_N + _GNU_SRC + __B_LEN);\n}\n"),
+    ]
     bases += families.repo_samples() if big else families.repo_samples()[::4]
     for name, src in bases:
         o0, d0, _ = meta.diags(name, src)
